@@ -75,7 +75,7 @@ void exportIspdRows(const Circuit &circuit, const std::string &filename) {
     f << "  Height        : " << circuit.rows()[i].height() << "\n";
     f << "  Sitewidth     : 1\n";
     f << "  Sitespacing   : 1\n";
-    f << "  Siteorient    : 1\n";
+    f << "  Siteorient    : " << toString(circuit.rows()[i].orientation) << "\n";
     f << "  Sitesymmetry  : 1\n";
     f << "  SubrowOrigin  : " << circuit.rows()[i].minX
       << "     NumSites : " << circuit.rows()[i].width() << "\n";
